@@ -264,6 +264,16 @@ func runC11(tier string, seed int64, out *Out) {
 		}
 		emit(s, extra)
 	}
+	// the same notation used again after it rejected a document
+	for _, bad := range []string{"[1, 2](List) 3", "[ ](Array)[", "[1 2](List)", "[1: ](Map)"} {
+		nt := cdc.Notation().Make()
+		cdcnLineWith(nt, out, "C12", 0, bad, J{"gen": "seq-bad"})
+		for i := 0; i < 4; i++ {
+			sn := g.collection(2)
+			caseID++
+			cdcnLineWith(nt, out, "C11", caseID, sn.text, J{"gen": "after-rejection", "expect": encVal(sn.val)})
+		}
+	}
 	// sets and repeated keys: ordering, de-duplication, first position / last value
 	emit(sentence{"[3, 1, 2, 3, 1](Set)", col.Set[any](notation).MakeFromArray([]any{int64(1), int64(2), int64(3)}), 6}, J{"gen": "set"})
 	emit(sentence{"[\"b\", \"a\", 2, 1, nil, true](Set)", col.Set[any](notation).MakeFromArray([]any{nil, true, int64(1), int64(2), "a", "b"}), 7}, J{"gen": "set"})
